@@ -1295,10 +1295,12 @@ def container_gate(rng, n):
         rs = [p.add_res("r%d" % k) for k in range(rng.randint(1, 2))]
         box = p.add_task("build")
         inner = None
-        if rng.random() < 0.4:
+        if rng.random() < 0.6:
             inner = p.add_task("stage", parent=box)
+            if rng.random() < 0.4:
+                inner = p.add_task("step", parent=inner)          # the leaves that complete `build` sit two or three levels below it
         for k in range(rng.randint(1, 3)):
-            p.add_task("c%d" % k, parent=inner if (inner and rng.random() < 0.6) else box, effort=G * rng.randint(1, 10),
+            p.add_task("c%d" % k, parent=inner if (inner and rng.random() < 0.7) else box, effort=G * rng.randint(1, 10),
                        alloc=[rng.choice(rs)], prio=rng.choice([None, 500, 600]))
         if inner is not None and not inner.kids:
             p.add_task("cx", parent=inner, effort=G * 2, alloc=[rs[0]])
